@@ -3,6 +3,7 @@ package swamp
 import (
 	"github.com/hydraide/hydraide/app/core/hydra/swamp/bucket"
 	"github.com/hydraide/hydraide/app/core/hydra/swamp/treasure"
+	"github.com/hydraide/hydraide/app/verifhook"
 )
 
 // GetOrBuildBucket returns the bucket for fieldPath, building its
@@ -51,7 +52,13 @@ func (s *swamp) GetOrBuildBucket(fieldPath string) bucket.Bucket {
 
 	if !b.EqualityInitialized() {
 		snapshot := s.beaconKey.CloneUnorderedTreasures(false)
+		if verifhook.Enabled {
+			verifhook.Point("bucket.snapshot", fieldPath)
+		}
 		_ = b.BuildEquality(snapshot)
+		if verifhook.Enabled {
+			verifhook.Point("bucket.built", fieldPath)
+		}
 		_ = b.DrainPending()
 	}
 	return b
